@@ -168,9 +168,60 @@ fn generate_seqlimit(seed: u64, n: usize, emit: &mut dyn FnMut(String)) {
 	}
 }
 
+/// Graphs that only the builder API can assemble: cycles that go through records only (the
+/// parser's cycle check rejects them as text, `freeze` accepts them). Every step of such a cycle
+/// reads zero bytes, so the depth budget is the only thing that ends the recursion.
+fn generate_cyclic(seed: u64, n: usize, emit: &mut dyn FnMut(String)) {
+	let mut rng = rng_from(seed, "de-cyclic");
+	for i in 0..n {
+		let k = rng.gen_range(1..=3usize); // records on the cycle
+		let mut schema: RawSchema = vec![];
+		for j in 0..k {
+			let next = (j + 1) % k;
+			let mut fields = vec![];
+			let pre = rng.gen_range(0..2);
+			for f in 0..pre {
+				fields.push((format!("p{f}"), k)); // node k: int
+			}
+			fields.push(("next".to_string(), next));
+			schema.push(RawNode { reg: Reg::Record(format!("C{i}_{j}"), fields), logical: None });
+		}
+		schema.push(RawNode { reg: Reg::Int, logical: None });
+		if rng.gen_bool(0.3) {
+			// the cycle below an array at the root
+			let len = schema.len();
+			schema.push(RawNode { reg: Reg::Array(0), logical: None });
+			schema.swap(0, len);
+			for n in schema.iter_mut() {
+				let fix = |x: &mut usize| {
+					if *x == 0 {
+						*x = len
+					} else if *x == len {
+						*x = 0
+					}
+				};
+				match &mut n.reg {
+					Reg::Array(x) | Reg::Map(x) => fix(x),
+					Reg::Record(_, fs) => fs.iter_mut().for_each(|(_, x)| fix(x)),
+					_ => {}
+				}
+			}
+		}
+		let len = rng.gen_range(0..24);
+		let bytes: Vec<u8> = (0..len).map(|_| *[0u8, 1, 2, 3, 4, 0x7f, 0x80, 0x10].choose(&mut rng).unwrap()).collect();
+		let hint = if rng.gen_bool(0.5) { Hint::Any } else { Hint::Ignored };
+		let depth = *[0usize, 1, 2, 3, 8, 64, 64, 200].choose(&mut rng).unwrap();
+		let backend = if rng.gen_bool(0.3) { random_backend(&mut rng, bytes.len()) } else { Backend::Slice };
+		emit(case_line(&backend, 1000, depth, &schema, &hint, &bytes));
+	}
+}
+
 pub fn generate(stream: &str, seed: u64, n: usize, emit: &mut dyn FnMut(String)) {
 	if stream == "de-seqlimit" {
 		return generate_seqlimit(seed, n, emit);
+	}
+	if stream == "de-cyclic" {
+		return generate_cyclic(seed, n, emit);
 	}
 	let mut rng = rng_from(seed, stream);
 	for i in 0..n {
